@@ -1028,4 +1028,275 @@ theorem generateAlgoOrders_isEmpty (dead : Nat → Bool) (c o : List Req) :
   cases (c.filter (!refused ·)).isEmpty <;> cases (o.filter (!refused ·)).isEmpty <;>
     cases (c.filter refused).isEmpty <;> cases (o.filter refused).isEmpty <;> rfl
 
+/-! ### one `Engine::process` over the full command alphabet: the errors in closed form -/
+
+theorem sendRequests_unrec_eq (dead : Nat → Bool) (reqs : List Req) :
+    (sendRequests dead reqs).unrecoverableErrors = NOM.fromIter (failedSends dead reqs) :=
+  NOM.canonical_ext (SendRequestsOutput.unrecoverableErrors_canonical _) (NOM.fromIter_canonical _)
+    (by rw [sendRequests_unrec, NOM.fromIter_asRef])
+
+/-- `SendCancelsAndOpensOutput::unrecoverable_errors` over two `send_requests` outputs: the cancel
+side collected, extended by the open side's failures. -/
+theorem cancelsAndOpens_unrec_eq (dead : Nat → Bool) (c o : List Req) :
+    (⟨sendRequests dead c, sendRequests dead o⟩ :
+        SendCancelsAndOpensOutput Req Req Unit Nat).unrecoverableErrors =
+      (NOM.fromIter (failedSends dead c)).extend (failedSends dead o) := by
+  unfold SendCancelsAndOpensOutput.unrecoverableErrors
+  rw [sendRequests_unrec_eq, sendRequests_unrec_eq, NOM.intoIter_eq, NOM.fromIter_asRef]
+
+theorem stageErrors_eq (dead : Nat → Bool) (c o : List Req) :
+    stageErrors (generateAlgoOrders dead c o) =
+      (NOM.fromIter (failedSends dead (c.filter (!refused ·)))).extend
+        (failedSends dead (o.filter (!refused ·))) := by
+  apply NOM.canonical_ext (stageErrors_canonical _) (NOM.extend_canonical (NOM.fromIter_canonical _) _)
+  rw [stageErrors_asRef]
+  show (⟨sendRequests dead (c.filter (!refused ·)), sendRequests dead (o.filter (!refused ·))⟩ :
+        SendCancelsAndOpensOutput Req Req Unit Nat).unrecoverableErrors.asRef = _
+  rw [cancelsAndOpens_unrec_eq]
+
+theorem extend_fromIter_nil_iff {α : Type} (c o : List α) :
+    ((NOM.fromIter c).extend o).asRef = [] ↔ c = [] ∧ o = [] := by
+  constructor
+  · intro h
+    have hp := NOM.extend_perm (NOM.fromIter c) o
+    rw [h, NOM.fromIter_asRef] at hp
+    have := List.perm_nil.mp hp.symm
+    exact List.append_eq_nil_iff.mp this
+  · rintro ⟨rfl, rfl⟩; rfl
+
+/-- a command whose action output has the (canonical) error collection `E`: fatal iff `E` has an item,
+and then the audit's errors are `E` itself; otherwise the generation stage decides. -/
+theorem engineAudit_of_cmdPre (dead : Nat → Bool) (enabled : Bool) (ev : EngEv) (E : NOM Nat)
+    (algoC algoO : List Req) (hE : E.Canonical)
+    (hpre : enginePre dead enabled ev = cmdPre ev E enabled) :
+    ∃ p, engineAudit dead enabled ev algoC algoO = .process p ∧ p.event = ev ∧ p.WF ∧
+      p.outputs.asRef = [Out.cmd] ++
+        (if E.asRef.isEmpty && enabled && !(algoC.isEmpty && algoO.isEmpty) then [Out.algo] else []) ∧
+      p.errors = (if E.asRef.isEmpty then
+          (if enabled then stageErrors (generateAlgoOrders dead algoC algoO) else .none) else E) := by
+  unfold engineAudit
+  rw [hpre]
+  unfold cmdPre
+  cases hU : E.intoOption with
+  | none =>
+    have hnil : E.asRef = [] := (NOM.intoOption_none_iff_of_canonical hE).mp hU
+    obtain ⟨p, hp, hpe, herr, hwf, hout, _⟩ := assemble_spec (Pre.command ev Out.cmd)
+      (if enabled then some ⟨(generateAlgoOrders dead algoC algoO).isEmpty,
+            (generateAlgoOrders dead algoC algoO).unrecoverableErrors, .algo⟩ else none)
+    refine ⟨p, hp, hpe, hwf, ?_, ?_⟩
+    · rw [hout, assembleOutputs_nonfatal _ enabled _ nofun nofun, generateAlgoOrders_isEmpty, hnil]
+      simp [Pre.audit, ProcessAudit.withOutput, NOM.asRef]
+    · rw [herr, assembleErrors_nonfatal _ enabled _ nofun nofun, hnil]; rfl
+  | some u =>
+    have hu := NOM.intoOption_asRef hU
+    have hne : E.asRef ≠ [] := hu ▸ (NOM.intoOption_canonical hE hU).2
+    have hne' : E.asRef.isEmpty = false := by
+      cases h : E.asRef with
+      | nil => exact absurd h hne
+      | cons _ _ => rfl
+    obtain ⟨p, hp, hpe, herr, hwf, hout, _⟩ := assemble_spec (Pre.commandFatal ev u Out.cmd)
+      (if enabled then some ⟨(generateAlgoOrders dead algoC algoO).isEmpty,
+            (generateAlgoOrders dead algoC algoO).unrecoverableErrors, .algo⟩ else none)
+    refine ⟨p, hp, hpe, hwf, ?_, ?_⟩
+    · rw [hout, hne']; simp [assembleOutputs, Pre.audit, NOM.asRef]
+    · rw [herr, hne']
+      simp only [assembleErrors, OOM.intoIter_eq, hu, Bool.false_eq_true, if_false]
+      exact NOM.fromIter_asRef_of_canonical hE
+
+/-- an update event (trading state, account / market item or notice): the generation stage decides. -/
+theorem engineAudit_of_update (dead : Nat → Bool) (enabled : Bool) (ev : EngEv) (o : Option Out) (en : Bool)
+    (algoC algoO : List Req) (hpre : enginePre dead enabled ev = (.update ev o, en)) :
+    ∃ p, engineAudit dead enabled ev algoC algoO = .process p ∧ p.event = ev ∧ p.WF ∧
+      p.outputs.asRef = o.toList ++ (if en && !(algoC.isEmpty && algoO.isEmpty) then [Out.algo] else []) ∧
+      p.errors = (if en then stageErrors (generateAlgoOrders dead algoC algoO) else .none) := by
+  unfold engineAudit
+  rw [hpre]
+  obtain ⟨p, hp, hpe, herr, hwf, hout, _⟩ := assemble_spec (Pre.update ev o)
+    (if en then some ⟨(generateAlgoOrders dead algoC algoO).isEmpty,
+          (generateAlgoOrders dead algoC algoO).unrecoverableErrors, .algo⟩ else none)
+  refine ⟨p, hp, ?_, hwf, ?_, ?_⟩
+  · rw [hpe]; cases o <;> rfl
+  · rw [hout, assembleOutputs_nonfatal _ en _ nofun nofun, generateAlgoOrders_isEmpty]
+    cases o <;> simp [Pre.audit, ProcessAudit.withOutput, ProcessAudit.withEvent, NOM.asRef]
+  · rw [herr, assembleErrors_nonfatal _ en _ nofun nofun]
+
+theorem specEngineOutputs_eq (dead : Nat → Bool) (enabled : Bool) (ev : EngEv) (algoC algoO : List Req) :
+    specEngineOutputs dead enabled ev algoC algoO =
+      firstOutputs enabled ev ++
+        (if !ev.terminal && !cmdFailed dead ev && enabledAfter enabled ev &&
+            !(algoC.isEmpty && algoO.isEmpty) then [Out.algo] else []) := by
+  unfold specEngineOutputs; split <;> simp
+
+/-- **One `Engine::process`, every event of the alphabet, in closed form**: the audit is a canonical
+`Process` record of the event, its outputs are `specEngineOutputs`, and its error collection is
+exactly `from_iter(cancel-side failures).extend(open-side failures)` of the stage that failed. -/
+theorem engineAudit_closed_form (dead : Nat → Bool) (enabled : Bool) (ev : EngEv) (algoC algoO : List Req) :
+    ∃ p, engineAudit dead enabled ev algoC algoO = .process p ∧ p.event = ev ∧ p.WF ∧
+      p.outputs.asRef = specEngineOutputs dead enabled ev algoC algoO ∧
+      p.errors = (NOM.fromIter (specErrorParts dead enabled ev algoC algoO).1).extend
+        (specErrorParts dead enabled ev algoC algoO).2 := by
+  -- the four commands share one argument
+  have cmd : ∀ (c o : List Nat) (E : NOM Nat), E = (NOM.fromIter c).extend o →
+      cmdErrorParts dead ev = (c, o) → firstOutputs enabled ev = [Out.cmd] →
+      ev.terminal = false → enabledAfter enabled ev = enabled →
+      enginePre dead enabled ev = cmdPre ev E enabled →
+      ∃ p, engineAudit dead enabled ev algoC algoO = .process p ∧ p.event = ev ∧ p.WF ∧
+        p.outputs.asRef = specEngineOutputs dead enabled ev algoC algoO ∧
+        p.errors = (NOM.fromIter (specErrorParts dead enabled ev algoC algoO).1).extend
+          (specErrorParts dead enabled ev algoC algoO).2 := by
+    intro c o E hEq hparts hfirst hterm hen hpre
+    have hcan : E.Canonical := hEq ▸ NOM.extend_canonical (NOM.fromIter_canonical _) _
+    obtain ⟨p, hp, hpe, hwf, hout, herr⟩ := engineAudit_of_cmdPre dead enabled ev E algoC algoO hcan hpre
+    have hnil : E.asRef.isEmpty = (c ++ o).isEmpty := by
+      have h1 := extend_fromIter_nil_iff c o
+      rw [← hEq] at h1
+      cases hE : E.asRef with
+      | nil => obtain ⟨rfl, rfl⟩ := h1.mp hE; rfl
+      | cons x xs =>
+        cases hco : c ++ o with
+        | nil =>
+          obtain ⟨rfl, rfl⟩ := List.append_eq_nil_iff.mp hco
+          rw [h1.mpr ⟨rfl, rfl⟩] at hE; cases hE
+        | cons _ _ => rfl
+    have hfail : cmdFailed dead ev = !(c ++ o).isEmpty := by unfold cmdFailed; rw [hparts]
+    refine ⟨p, hp, hpe, hwf, ?_, ?_⟩
+    · rw [hout, specEngineOutputs_eq, hfirst, hterm, hen, hfail, hnil]
+      cases (c ++ o).isEmpty <;> simp
+    · rw [herr, hnil]
+      unfold specErrorParts
+      rw [hfail, hparts, hterm, hen]
+      cases hco : (c ++ o).isEmpty with
+      | true =>
+        cases enabled with
+        | true => simp [stageErrors_eq]
+        | false => simp; rfl
+      | false => simp [hEq]
+  -- an update: no command errors
+  have upd : ∀ (o : Option Out) (en : Bool), cmdErrorParts dead ev = ([], []) →
+      firstOutputs enabled ev = o.toList → ev.terminal = false → enabledAfter enabled ev = en →
+      enginePre dead enabled ev = (.update ev o, en) →
+      ∃ p, engineAudit dead enabled ev algoC algoO = .process p ∧ p.event = ev ∧ p.WF ∧
+        p.outputs.asRef = specEngineOutputs dead enabled ev algoC algoO ∧
+        p.errors = (NOM.fromIter (specErrorParts dead enabled ev algoC algoO).1).extend
+          (specErrorParts dead enabled ev algoC algoO).2 := by
+    intro o en hparts hfirst hterm hen hpre
+    obtain ⟨p, hp, hpe, hwf, hout, herr⟩ := engineAudit_of_update dead enabled ev o en algoC algoO hpre
+    have hfail : cmdFailed dead ev = false := by unfold cmdFailed; rw [hparts]; rfl
+    refine ⟨p, hp, hpe, hwf, ?_, ?_⟩
+    · rw [hout, specEngineOutputs_eq, hfirst, hterm, hen, hfail]; simp
+    · rw [herr]
+      unfold specErrorParts
+      rw [hfail, hterm, hen]
+      cases en with
+      | true => simp [stageErrors_eq]
+      | false => simp; rfl
+  cases ev with
+  | shutdown =>
+    exact ⟨ProcessAudit.withEvent .shutdown, rfl, rfl, ⟨trivial, trivial⟩,
+      by rw [specEngineOutputs_eq]; simp [firstOutputs, EngEv.terminal, ProcessAudit.withEvent, NOM.asRef],
+      by simp [specErrorParts, cmdFailed, cmdErrorParts, EngEv.terminal, ProcessAudit.withEvent]; rfl⟩
+  | cmdCancel r =>
+    exact cmd (failedSends dead r) [] _ (by rw [NOM.extend_nil]; exact sendRequests_unrec_eq dead r)
+      rfl rfl rfl rfl rfl
+  | cmdOpen r =>
+    exact cmd [] (failedSends dead r) _
+      (by rw [show NOM.fromIter ([] : List Nat) = .none from rfl, NOM.extend_none]
+          exact sendRequests_unrec_eq dead r)
+      rfl rfl rfl rfl rfl
+  | cmdCancelOrders r =>
+    exact cmd (failedSends dead r) [] _ (by rw [NOM.extend_nil]; exact sendRequests_unrec_eq dead r)
+      rfl rfl rfl rfl rfl
+  | cmdClose c o =>
+    exact cmd (failedSends dead c) (failedSends dead o) _ (cancelsAndOpens_unrec_eq dead c o)
+      rfl rfl rfl rfl rfl
+  | tsOn => exact upd none true rfl rfl rfl rfl rfl
+  | tsOff => exact upd (if enabled then some (.td 0) else none) false rfl (by cases enabled <;> rfl) rfl rfl rfl
+  | mkt => exact upd none enabled rfl rfl rfl rfl rfl
+  | mktRe => exact upd (some (.md 0)) enabled rfl rfl rfl rfl rfl
+  | accRe => exact upd (some (.ad 0)) enabled rfl rfl rfl rfl rfl
+
+/-- `Spec.reorders` is the negation of the order condition of `extend` on a collected cancel side -/
+theorem reorders_eq_false_iff {α : Type} [BEq α] [LawfulBEq α] (c o : List α) :
+    Spec.reorders c o = false ↔
+      ∀ x, NOM.fromIter c = .one x → 2 ≤ o.length → ∀ y ∈ o, y = x := by
+  unfold Spec.reorders
+  match c with
+  | [] => simp [NOM.fromIter]
+  | [k] =>
+    simp only [NOM.fromIter, NOM.one.injEq, Bool.and_eq_false_iff, decide_eq_false_iff_not,
+      List.any_eq_false, bne_iff_ne, ne_eq]
+    constructor
+    · rintro h x rfl hl y hy
+      rcases h with h | h
+      · exact absurd hl h
+      · exact Classical.not_not.mp (h y hy)
+    · intro h
+      by_cases hl : 2 ≤ o.length
+      · exact Or.inr (fun y hy hn => hn (h k rfl hl y hy))
+      · exact Or.inl hl
+  | _ :: _ :: _ => simp [NOM.fromIter]
+
+/-- … and when it holds the collected cancel item ends up behind the open side. -/
+theorem extend_of_reorders {α : Type} [BEq α] [LawfulBEq α] (c o : List α) (h : Spec.reorders c o = true) :
+    ((NOM.fromIter c).extend o).asRef = o ++ c := by
+  unfold Spec.reorders at h
+  match c, h with
+  | [k], h =>
+    simp only [Bool.and_eq_true, decide_eq_true_eq] at h
+    match o, h with
+    | y :: z :: l, _ => rfl
+
+/-! ### derived `Ord` on canonical values -/
+
+theorem NOM.cmp_eq_cmpSeq {a b : NOM Int} (ha : a.Canonical) (hb : b.Canonical) :
+    NOM.cmp a b = Spec.cmpSeq a.asRef b.asRef := by
+  have two : ∀ l : List Int, 2 ≤ l.length → Spec.lenClass l = 2 := by
+    intro l h; simp only [Spec.lenClass]; omega
+  cases a with
+  | none =>
+    cases b with
+    | none => rfl
+    | one y => rfl
+    | many r =>
+      have hr : 2 ≤ r.length := hb
+      simp only [NOM.cmp, NOM.tag, NOM.asRef, Spec.cmpSeq, two r hr]; rfl
+  | one x =>
+    cases b with
+    | none => rfl
+    | one y =>
+      simp only [NOM.cmp, NOM.asRef, Spec.cmpSeq, Spec.lenClass, NOM.cmpList]
+      cases compare x y <;> rfl
+    | many r =>
+      have hr : 2 ≤ r.length := hb
+      simp only [NOM.cmp, NOM.tag, NOM.asRef, Spec.cmpSeq, two r hr]; rfl
+  | many l =>
+    have hl : 2 ≤ l.length := ha
+    cases b with
+    | none => simp only [NOM.cmp, NOM.tag, NOM.asRef, Spec.cmpSeq, two l hl]; rfl
+    | one y => simp only [NOM.cmp, NOM.tag, NOM.asRef, Spec.cmpSeq, two l hl]; rfl
+    | many r =>
+      have hr : 2 ≤ r.length := hb
+      simp only [NOM.cmp, NOM.asRef, Spec.cmpSeq, two l hl, two r hr, if_true]
+
+theorem OOM.cmp_eq_cmpSeq {a b : OOM Int} (ha : a.Canonical) (hb : b.Canonical) :
+    OOM.cmp a b = Spec.cmpSeq a.asRef b.asRef := by
+  have two : ∀ l : List Int, 2 ≤ l.length → Spec.lenClass l = 2 := by
+    intro l h; simp only [Spec.lenClass]; omega
+  cases a with
+  | one x =>
+    cases b with
+    | one y =>
+      simp only [OOM.cmp, OOM.asRef, Spec.cmpSeq, Spec.lenClass, NOM.cmpList]
+      cases compare x y <;> rfl
+    | many r =>
+      have hr : 2 ≤ r.length := hb
+      simp only [OOM.cmp, OOM.tag, OOM.asRef, Spec.cmpSeq, two r hr]; rfl
+  | many l =>
+    have hl : 2 ≤ l.length := ha
+    cases b with
+    | one y => simp only [OOM.cmp, OOM.tag, OOM.asRef, Spec.cmpSeq, two l hl]; rfl
+    | many r =>
+      have hr : 2 ≤ r.length := hb
+      simp only [OOM.cmp, OOM.asRef, Spec.cmpSeq, two l hl, two r hr, if_true]
+
 end BarterModel.Collections
